@@ -382,15 +382,26 @@ def _get_key(e):
     return None
 
 
+def _unit_assigns(n):
+    """the plain `target = value` pairs one assignment statement stands for: every target of `a = b = v`, and the pairs of an
+    element-wise tuple assignment `a, b = x, y` (values are read before any target is bound: callers take paths first)"""
+    out = []
+    for t in n.targets:
+        if isinstance(t, (ast.Tuple, ast.List)) and isinstance(n.value, (ast.Tuple, ast.List)) and len(t.elts) == len(n.value.elts) \
+                and not any(isinstance(e, ast.Starred) for e in list(t.elts) + list(n.value.elts)):
+            out += [(te, ve) for te, ve in zip(t.elts, n.value.elts)]
+        else:
+            out.append((t, n.value))
+    return out
+
+
 def _alias_paths(fn, root_names, derive=False):
     """Follow `x = y["k"]` chains.  -> (reads {path: line}, writes {path: line}, var->path)
     derive=True: a fresh local computed from locals of exactly one configuration path (a converted / copied table under a new
     name) stands for that path too."""
     var = {n: p for n, p in root_names.items()}
     reads, writes = {}, {}
-    for node in ast.walk(fn):
-        pass
-    stmts = [n for n in _in_order(fn) if isinstance(n, (ast.Assign,))]       # execution order (expanded helpers keep their own line numbers)
+    stmts = [n for n in _in_order(fn) if isinstance(n, (ast.Assign, ast.AnnAssign))]       # execution order (expanded helpers keep their own line numbers)
 
     def path_of(e):
         if isinstance(e, ast.Name) and e.id in var:
@@ -406,28 +417,36 @@ def _alias_paths(fn, root_names, derive=False):
                 return f"{b}.{k}" if b else k
         return None
     for n in stmts:
-        t = n.targets[0]
-        # write: X["k"] = value
-        if isinstance(t, ast.Subscript):
-            p = path_of(t)
-            if p is not None:
-                writes[p] = n.lineno
-                if isinstance(n.value, ast.Dict):
-                    for k in n.value.keys:
-                        if isinstance(k, ast.Constant):
-                            writes[f"{p}.{k.value}"] = n.lineno
-        # read / alias: name = X["k"]
-        if isinstance(t, ast.Name):
-            p = path_of(n.value)
-            if p is not None:
-                var[t.id] = p
-                reads[p] = n.lineno
-            else:
+        if isinstance(n, ast.AnnAssign):
+            if n.value is None:
+                continue
+            units = [(n.target, n.value)]
+        else:
+            units = _unit_assigns(n)
+        # the right-hand sides are evaluated before any target is bound
+        units = [(t, v, path_of(v), path_of(t) if isinstance(t, ast.Subscript) else None) for t, v in units]
+        for t, value, p, tp in units:
+            # write: X["k"] = value
+            if isinstance(t, ast.Subscript):
+                if tp is not None:
+                    writes[tp] = n.lineno
+                    if isinstance(value, ast.Dict):
+                        for k in value.keys:
+                            if isinstance(k, ast.Constant):
+                                writes[f"{tp}.{k.value}"] = n.lineno
+            # read / alias: name = X["k"]
+            if isinstance(t, ast.Name):
+                if p is not None:
+                    var[t.id] = p
+                    if not isinstance(value, ast.Name):          # `x = y` names the table again; it asks the document for nothing
+                        reads[p] = n.lineno
+                    continue
                 if derive and t.id not in var:
-                    src = {var[x.id] for x in ast.walk(n.value) if isinstance(x, ast.Name) and x.id in var and var[x.id]}
+                    src = {var[x.id] for x in ast.walk(value) if isinstance(x, ast.Name) and x.id in var and var[x.id]}
                     if len(src) == 1:
                         var[t.id] = next(iter(src))
-                for sub in ast.walk(n.value):
+            if p is None:
+                for sub in ast.walk(value):
                     if isinstance(sub, ast.Subscript) or _get_key(sub) is not None:
                         q = path_of(sub)
                         if q is not None:
@@ -435,9 +454,14 @@ def _alias_paths(fn, root_names, derive=False):
     return reads, writes, var
 
 
+_WHOLE_OK_CALLS = ("dumps", "len", "print", "get", "write", "table", "isinstance")
+
+
 def _escaped_tables(fn, var):
-    """configuration tables (paths held by aliasing locals / subscripts of them) that are handed WHOLE to a call: whatever is read or
-    written below such a path happens out of this rule's sight"""
+    """configuration tables (paths held by aliasing locals / subscripts of them) that leave this rule's sight WHOLE: handed to a call,
+    returned, stored into a container / attribute, unpacked, indexed by a computed key, iterated.  Whatever is read or written below
+    such a path happens where `_alias_paths` does not look.  The uses it does read: `X["k"]`, `X.get("k")`, `name = X`,
+    the pairs of an element-wise tuple assignment, and the arguments of the few calls that take a document as a whole."""
     out = set()
 
     def path_of(e):
@@ -451,12 +475,36 @@ def _escaped_tables(fn, var):
     for c in ast.walk(fn):
         if isinstance(c, ast.Call):
             f = ast.unparse(c.func)
-            if f.split(".")[-1] in ("dumps", "len", "print", "get", "write", "table", "isinstance"):
+            if f.split(".")[-1] in _WHOLE_OK_CALLS:
                 continue
             for a in list(c.args) + [k.value for k in c.keywords]:
+                if isinstance(a, ast.Starred):
+                    a = a.value
                 p_ = path_of(a)
                 if p_ is not None:
                     out.add(p_)
+    # every other place a local that holds a table of the document stands in
+    read_here = set()              # id() of the Name nodes in a position this rule reads
+    for x in ast.walk(fn):
+        if isinstance(x, ast.Subscript) and isinstance(x.slice, ast.Constant) and isinstance(x.slice.value, str):
+            read_here.add(id(x.value))
+        elif isinstance(x, ast.Call):
+            if _get_key(x) is not None:
+                read_here.add(id(x.func.value))
+            for a in list(x.args) + [k.value for k in x.keywords]:
+                read_here.add(id(a.value if isinstance(a, ast.Starred) else a))            # decided above
+        elif isinstance(x, ast.Assign):
+            for t, v in _unit_assigns(x):
+                if isinstance(t, ast.Name) or (isinstance(t, ast.Subscript) and path_of(t) is not None):
+                    read_here.add(id(v))
+        elif isinstance(x, ast.AnnAssign) and x.value is not None and isinstance(x.target, ast.Name):
+            read_here.add(id(x.value))
+        elif isinstance(x, (ast.If, ast.While, ast.IfExp)):
+            read_here.add(id(x.test))                     # `if table:` asks whether it is empty, not what is in it
+    tables = {p for p in var.values() if any(q != p and (q.startswith(p + ".") or p == "") for q in var.values())}
+    for x in ast.walk(fn):
+        if isinstance(x, ast.Name) and isinstance(x.ctx, ast.Load) and x.id in var and id(x) not in read_here and var[x.id] in tables:
+            out.add(var[x.id])
     return out
 
 
